@@ -204,6 +204,11 @@ where
             }
         } else {
             log::warn!("The index is already empty");
+            // A reorg deeper than the index: nothing is left to remove, but the tip still moves back with every
+            // disconnection. Otherwise every block connected afterwards would be given a height that is too high.
+            if self.blocks.is_empty() {
+                self.tip = self.tip.saturating_sub(1);
+            }
         }
     }
 
